@@ -21,7 +21,7 @@ for d in sorted(glob.glob('/verif/seeded/*/meta.json')):
         else: why='does not build'
     rows.append((name,m.get('property'),what,kept,why,m.get('check_results','')))
 out=['# Seeded property-breaking changes','',
- 'Round 1 = `-a`/`-b`, round 2 = `-c`/`-d`, round 3 = `-e`/`-f`, round 4 = `-g`/`-h`, round 5 = `-i`/`-j`, round 6 = `-k`/`-l`, round 7 = `-m`/`-n`. A second check named in the outcome column is the neighbouring check that owns the mechanism (see DESIGN.md section 7). Each directory: `patch.diff` (against the `/repo` HEAD named in meta.json), the sub-agent\'s demonstration test, its `NOTES.md`, and `meta.json` (confirmation by `tools/confirm_seed.sh`, check outcome by `tools/seed_matrix.sh`).','',
+ 'Round 1 = `-a`/`-b`, round 2 = `-c`/`-d`, round 3 = `-e`/`-f`, round 4 = `-g`/`-h`, round 5 = `-i`/`-j`, round 6 = `-k`/`-l`, round 7 = `-m`/`-n`, round 8 = `-o`/`-p`. A second check named in the outcome column is the neighbouring check that owns the mechanism (see DESIGN.md section 7). Each directory: `patch.diff` (against the `/repo` HEAD named in meta.json), the sub-agent\'s demonstration test, its `NOTES.md`, and `meta.json` (confirmation by `tools/confirm_seed.sh`, check outcome by `tools/seed_matrix.sh`).','',
  '| change | what it does (agent\'s title) | kept | outcome of the quick check(s) |','|---|---|---|---|']
 for name,prop,what,kept,why,res in rows:
     out.append('| %s | %s | %s | %s |'%(name,what.replace('|','/'), 'yes' if kept else 'no: '+why, res.replace('|','/') if kept else ''))
